@@ -3,6 +3,9 @@
 mod acc;
 mod common;
 mod fix;
+mod framede;
+#[macro_use]
+mod ser;
 mod transport;
 mod wire;
 
@@ -40,6 +43,9 @@ fn main() {
         "wire-exh16" => wire::run_exh16(&args),
         "wire-vec" => wire::run_vectors(&args),
         "fix" => fix::run(&args),
+        "ser" => ser::run(&args),
+        "cobs-de" => framede::run_cobs(&args),
+        "crc-de" => framede::run_crc(&args),
         "acc-edges" => acc::run_edges(&args),
         "acc-stream" => acc::run_streams(&args),
         _ => panic!("unknown subcommand {cmd}"),
